@@ -141,7 +141,7 @@ pub fn judge(prop: &str, line: &str, imp: &str, m: &str, s: &str) -> Verdict {
         if b == "-" {
             return true;
         }
-        props::compare(prop, &r, a, b).unwrap_or_else(|| crate::cmp::line_eq_tols(a, b, mode, tols.as_deref()))
+        props::compare(prop, &r, a, b).unwrap_or_else(|| crate::cmp::line_eq_tf(a, b, mode, tols.as_deref()))
     };
     Verdict {
         impl_model: eq(imp, m),
